@@ -235,7 +235,7 @@ func (Prop) Generate(seed uint64, tier string) *core.Plan {
 	// callee scripts first (leaf, then mid) so that use() only points "down": no cycles
 	ncallee := 0
 	if r.Intn(3) == 0 {
-		ncallee = 1 + r.Intn(2)
+		ncallee = 1 + r.Intn(3)
 	}
 	for i := 0; i < ncallee; i++ {
 		name := fmt.Sprintf("c%d.p", i)
@@ -243,6 +243,17 @@ func (Prop) Generate(seed uint64, tier string) *core.Plan {
 		body := g.block(0, false, 4)
 		if !hasLoop(body) {
 			body = append(body, g.stmt(0, false))
+		}
+		if r.Intn(2) == 0 {
+			// the callee starts with an effect (visible if it is entered at all)
+			g.nextP++
+			body = append([]plgen.Stmt{{K: "p", N: g.nextP}}, body...)
+		}
+		if g.allowUse && len(g.callees) > 0 && r.Intn(2) == 0 {
+			// tail position: use() of a deeper callee as the very last top-level statement
+			j := r.Intn(len(g.callees))
+			body = append(body, plgen.Stmt{K: "use", Arg: g.callees[j], N: int64(r.Intn(3))})
+			g.callees = append(g.callees[:j], g.callees[j+1:]...)
 		}
 		w.Scripts[name] = body
 		g.callees = append(g.callees, name)
@@ -253,6 +264,11 @@ func (Prop) Generate(seed uint64, tier string) *core.Plan {
 		if hasLoop(body) || usesUse(body) || tries > 5 {
 			if !hasLoop(body) && !usesUse(body) {
 				body = append(body, plgen.Stmt{K: "for", Body: []plgen.Stmt{{K: "p", N: 999}}})
+			}
+			if g.allowUse && len(g.callees) > 0 && r.Intn(3) == 0 {
+				j := r.Intn(len(g.callees))
+				body = append(body, plgen.Stmt{K: "use", Arg: g.callees[j], N: int64(r.Intn(3))})
+				g.callees = append(g.callees[:j], g.callees[j+1:]...)
 			}
 			w.Scripts["main.p"] = body
 			break
